@@ -27,16 +27,16 @@ PROP = dict(
          "with 1-4 keywords per step; non-trivial = at least one connection was re-entered, scaled, opened/shut or lumped; "
          "distinct = hash of the deck.",
     stages=[
-        dict(id="cells", harness="c06_peaceman", flavour="plain", cases={Q: 120000, T: 5000000}, timeout={Q: 600, T: 5400},
+        dict(id="cells", harness="c06_peaceman", flavour="plain", cases={Q: 120000, T: 2000000}, timeout={Q: 600, T: 5400},
              args=["part=cells"]),
-        dict(id="hist", harness="c06_peaceman", flavour="plain", cases={Q: 120000, T: 5000000}, timeout={Q: 600, T: 5400},
+        dict(id="hist", harness="c06_peaceman", flavour="plain", cases={Q: 120000, T: 2000000}, timeout={Q: 600, T: 5400},
              args=["part=hist"]),
     ],
-    min_nontrivial={Q: 150000, T: 6000000},
-    coverage_floor=[("cells", "relation_checks", {Q: 200000, T: 10000000}),
-                    ("cells", "explicit_equals_computed_checks", {Q: 200000, T: 10000000}),
-                    ("hist", "connection_state_checks", {Q: 1000000, T: 50000000}),
-                    ("hist", "untargeted_bit_exact_checks", {Q: 300000, T: 15000000})],
+    min_nontrivial={Q: 150000, T: 1875000},
+    coverage_floor=[("cells", "relation_checks", {Q: 200000, T: 2500000}),
+                    ("cells", "explicit_equals_computed_checks", {Q: 200000, T: 2500000}),
+                    ("hist", "connection_state_checks", {Q: 1000000, T: 12500000}),
+                    ("hist", "untargeted_bit_exact_checks", {Q: 300000, T: 3750000})],
     not_decided=[
         "rw >= r0 or ln(r0/rw)+S <= 0.05: there the library clamps with min(rw, r0) and the statement's relation does not apply; "
         "such records are not generated",
